@@ -9,6 +9,7 @@ from rules import chk as K
 def run(ctx):
     L.lck8_acyclic(ctx)
     L.lck9_no_blocking_under_lock(ctx)
+    L.lck10_no_reentrant_acquisition(ctx)
     L.cnd1_condvars(ctx)
     L.job1_pool_jobs(ctx)
     S.erv2_request_shell(ctx)
